@@ -273,7 +273,7 @@ impl<'a> PW<'a> {
         self.t.emit("q_pages", json!({"what": "pools", "limit": limit, "all": all, "paged": paged, "page_sizes": sizes}));
     }
     pub fn update_config(&mut self, sender: &Addr, toggle: Option<pm::FeatureToggle>, fee: Option<Coin>, funds: &[Coin], what: &str) -> bool {
-        let m = pm::ExecuteMsg::UpdateConfig { fee_collector_addr: self.next_fee_collector.take().map(|a| a.to_string()), farm_manager_addr: None, pool_creation_fee: fee, feature_toggle: toggle.clone() };
+        let m = pm::ExecuteMsg::UpdateConfig { fee_collector_addr: self.next_fee_collector.take().map(|a| a.to_string()), farm_manager_addr: None, pool_creation_fee: fee.clone(), feature_toggle: toggle.clone() };
         let r = self.s.exec_pm_guarded(sender, &m, funds);
         let tj = match &toggle {
             Some(t) => json!({"set": true, "pool": t.pool_identifier,
@@ -282,7 +282,11 @@ impl<'a> PW<'a> {
                 "wd": t.withdrawals_enabled.map(|b| if b { 1 } else { 0 }).unwrap_or(-1)}),
             None => json!({"set": false}),
         };
-        let body = json!({"sender": self.s.sym_of(sender.as_str()), "owner": "u1", "toggle": tj, "what": what, "funds": funds_json(&self.s, funds)});
+        let fj = match &fee {
+            Some(c) => json!({"set": true, "denom": self.s.dsym(&c.denom), "amt": u(c.amount)}),
+            None => json!({"set": false, "denom": "none", "amt": []}),
+        };
+        let body = json!({"sender": self.s.sym_of(sender.as_str()), "owner": "u1", "toggle": tj, "fee": fj, "what": what, "funds": funds_json(&self.s, funds)});
         self.finish("pm_update_config", body, &r)
     }
     pub fn donate(&mut self, from: &Addr, c: Coin) {
@@ -385,6 +389,17 @@ fn sc_create_pool_classes(t: &mut Tracer, cfg: SysCfg, name: &str) {
     extra1.push(coin(1, "uusd"));
     w.create_pool(&b, &["uusdc", "uusdt"], &[6, 6], f0.clone(), CP, Some("zerofeeextra2"), &sorted(extra1));
     w.create_pool(&b, &["uusdc", "uusdt"], &[6, 6], f0.clone(), CP, Some("zerofee"), &ok3);
+    // the creation fee changes its denom only (same amount): later creations owe the new coin
+    {
+        let before = w.s.q_pm_config().pool_creation_fee;
+        w.update_config(&o, None, Some(coin(1000, "uusdt")), &[], "creation fee 1000 uusdt");
+        let old_funds = w.creation_funds();
+        w.update_config(&o, None, Some(coin(1000, "uusdc")), &[], "creation fee: same amount, other denom");
+        let new_funds = w.creation_funds();
+        w.create_pool(&b, &["uusdc", "uweth"], &[6, 18], f0.clone(), CP, Some("oldcoin"), &old_funds);
+        w.create_pool(&b, &["uusdc", "uweth"], &[6, 18], f0.clone(), CP, Some("newcoin"), &new_funds);
+        w.update_config(&o, None, Some(before), &[], "creation fee back");
+    }
     // "p.1" names the generated pool, not the pool somebody called p.1 (stored as o.p.1)
     w.update_config(&o, Some(pm::FeatureToggle { pool_identifier: "p.1".into(), swaps_enabled: Some(false), deposits_enabled: None, withdrawals_enabled: None }), None, &[], "toggle p.1");
     w.update_config(&o, Some(pm::FeatureToggle { pool_identifier: "o.p.1".into(), swaps_enabled: None, deposits_enabled: Some(false), withdrawals_enabled: None }), None, &[], "toggle o.p.1");
@@ -1129,6 +1144,11 @@ fn sc_fee_floor_boundaries(t: &mut Tracer) {
             }
             w.swap(&a, "o.fine", &[coin(55_555_555_555_555_555_555_555_555, "uweth")], "uusdc", None, Some(Decimal::percent(50)), None);
             w.route(&a, &[h2("o.fine", "uusdc", "uweth")], &[coin(41_000_000_000_001, "uusdc")], None, None, Some(Decimal::percent(50)));
+            // reverse quotes where the offered side holds 10^27 units: still enough to buy what was asked
+            for ask in [100_000_000u128, 100_000_000_000_000, 7] {
+                w.rsim("o.fine", &coin(ask, "uusdc"), "uweth");
+            }
+            w.rsim("o.fine", &coin(1_000_000_000_000_000_000, "uweth"), "uusdc");
             w.provide(&a, "o.fine", &[coin(20_000_000_000_001, "uusdc")], None, None, None, None, Some(Decimal::percent(50)));
         }
     }
